@@ -609,7 +609,7 @@ class AsyncFIXConnection:
         if begin_seq_no < 1:
             # invalid request: answer from the first message
             begin_seq_no = 1
-        if end_seq_no == 0:
+        if end_seq_no == 0 or end_seq_no > sys.maxsize:
             end_seq_no = sys.maxsize
         self.log.info("Received resent request from %s to %s", begin_seq_no, end_seq_no)
         journal_replay_msgs = self._journaler.recover_messages(
